@@ -1,5 +1,7 @@
 import UVerif.Basic
 import UVerif.Spec.Posit
 import UVerif.Model.Posit
+import UVerif.Model.PositConv
+import UVerif.Spec.Ieee
 import UVerif.Model.Quire
 import UVerif.Driver.All
